@@ -99,6 +99,16 @@ def programs():
     # two distributed einsums of the same kind over a shared operand, different surrounding operands
     reg("shared_flux", {"Dx": (2, 2), "Dy": (2, 2), "u": (2,), "v": (2,), "f": (2,)},
         lambda Dx, Dy, u, v, f: (lambda flux: {"o": Dx @ flux + Dy @ flux, "p": Dx @ (u + v) - Dy @ (u - f)})(u + 2.0 * v))
+    reg("cyclic_transpose_3d", {"X": (2, 2, 2), "Y": (2, 2, 2), "v": (2,), "T": (2, 3, 4), "U": (2, 3, 4), "w4": (4,)},
+        lambda X, Y, v, T, U, w4: {"o": pt.einsum("ijk,k->ij", pt.transpose(X + Y, (1, 2, 0)), v),
+                                   "p": pt.einsum("ijk,k->ji", pt.transpose(X - Y, (2, 0, 1)) * 2.0, v),
+                                   "q": pt.einsum("ijk,i->jk", pt.transpose(T + U, (2, 0, 1)), w4),
+                                   "r": pt.einsum("ijk,j->ik", pt.transpose(T, (1, 2, 0)) + pt.transpose(U, (1, 2, 0)), w4)})
+    reg("reshape_F_unit_operand", {"a": (8,), "b": (2, 3, 4), "c": (4, 2)},
+        lambda a, b, c: {"o": pt.einsum("ijk,ijk->ik", pt.reshape(a, (2, 1, 4), order="F"), b),
+                         "p": pt.einsum("ijk,ijk->i", pt.reshape(c, (2, 1, 4), order="F"), b),
+                         "q": pt.einsum("ijk,ijk->jk", pt.reshape(a, (2, 1, 4), order="C"), b),
+                         "r": pt.einsum("ij,ij->i", pt.reshape(c, (8, 1), order="F"), pt.reshape(b, (8, 3), order="F"))})
     reg("sum_of_three", {"A": (2, 2), "x": (2,), "y": (2,), "z": (2,)}, lambda A, x, y, z: {"o": A @ (x + y + z)})
     return P
 
@@ -206,11 +216,13 @@ def _einsums_of(dag):
 
 
 class RewriteOb(SmtOb):
-    def __init__(self, oid, orig, new, shapes, info, exclude_known=None):
+    def __init__(self, oid, orig, new, shapes, info, exclude_known=None, xcheck=False):
         super().__init__()
         self.oid, self.orig, self.new, self.shapes, self.info = oid, orig, new, shapes, info
         self.params = []
         self.samples = []
+        self.xcheck = xcheck
+        self.stats = {}
 
     def _terms(self):
         import z3
@@ -243,6 +255,15 @@ class RewriteOb(SmtOb):
         t1 = time.time()
         r = s.check()
         res.update(solver_queries=1, solver_s=round(time.time() - t1, 3))
+        if self.xcheck and str(r) in ("sat", "unsat"):
+            from pv.sem.crosscheck import cvc5_verdict
+            v = cvc5_verdict(s, timeout_s=15)
+            self.info["cvc5"] = v
+            self.stats = {"cvc5_agree": int(v == str(r)), "cvc5_unknown": int(v not in ("sat", "unsat")),
+                          "cvc5_disagree": int(v in ("sat", "unsat") and v != str(r))}
+            if v in ("sat", "unsat") and v != str(r):
+                res.update(status="inconclusive", reason=f"solver disagreement: z3 {r}, cvc5 {v}")
+                return res
         if str(r) == "unsat":
             res.update(status="confirmed", message=f"unsat over {len(diffs)} differing element terms of {n}")
         elif str(r) == "sat":
@@ -336,7 +357,8 @@ def distribute_job(prog: str, seed: int = 0, gen_tier: str = "quick") -> JobOut:
                              {k: new[k] for k in dag.keys()}, shapes,
                              {"program": prog, "policy": label, "einsums": len(es), "inputs": info_in,
                               "expression": getattr(build, "text", "hand-written"),
-                              "encoding": "z3 reals, uninterpreted inputs, x/y as x*inv(y), reductions unrolled"}))
+                              "encoding": "z3 reals, uninterpreted inputs, x/y as x*inv(y), reductions unrolled"},
+                             xcheck=(gen_tier == "thorough")))
     return JobOut(obs=obs, sides=sides, info={"policies_declined_as_composed": n_declined})
 
 
